@@ -700,11 +700,16 @@ class Gen:
             name = f"'mac{self._uniq}'"
             npar = self.rng.randint(0, 2)
             params = []
-            for i in range(npar):
-                params.append(f"p{i}" + (f": {self.literal()}" if self.p(0.4) else ""))
+            pnames = [f"p{i}" for i in range(npar)]
+            if npar and self.p(0.12):
+                # a parameter named like one of the names every macro body gets anyway: the parameter is what the body sees
+                pnames[self.rng.randrange(npar)] = self.ch(["args", "kwargs"])
+            for pn in pnames:
+                params.append(pn + (f": {self.literal()}" if self.p(0.4) else ""))
             saved = (self.loop_vars, self.local_names)
-            self.loop_vars, self.local_names = [], [f"p{i}" for i in range(npar)] + ["args", "kwargs"]
+            self.loop_vars, self.local_names = [], pnames + ["args", "kwargs"]
             body = self.body(d, 1, 3)
+            body.append(["out", self.ch(pnames + ["args", "kwargs | size"])])
             self.loop_vars, self.local_names = saved
             self.macros.append((name, npar))
             self.meta.tags.add("macro")
